@@ -94,6 +94,12 @@ def guessKey (P : Prims) (E : Env) (K : KeyEnv) (arg : KeyArg) (headers : JVal) 
         pure (k', some k'.kid)
     else do pure (← getByKid ks kid, none)
 
+/-- `obj.set_kid(kid)` on a compact object when a key was picked at random. -/
+def applyKid (prot : JVal) (kid? : Option JVal) : Except Err JVal :=
+  match kid? with
+  | some kid => pySetItem prot "kid" kid
+  | none => .ok prot
+
 /-! ## Compact serialization -/
 
 structure CompactObj where
@@ -147,9 +153,7 @@ def serializeCompact (P : Prims) (E : Env) (K : KeyEnv) (reg : JwsRegistry) (pro
   let algv ← pyGetItemStr prot "alg"
   let alg ← reg.getAlg algv
   let (k, kid?) ← guessKey P E K key prot true
-  let prot' ← match kid? with
-    | some kid => pySetItem prot "kid" kid
-    | none => pure prot
+  let prot' ← applyKid prot kid?
   k.checkUse "sig"
   alg.checkKeyType k
   k.checkAlg algv
